@@ -339,7 +339,7 @@ pub struct Node {
 }
 
 pub fn is_future(k: &str) -> bool {
-    matches!(k, "collect" | "for_each" | "send_push" | "send_sink" | "next")
+    matches!(k, "collect" | "for_each" | "send_push" | "send_sink" | "next" | "fold" | "fold_from" | "reduce")
 }
 
 fn cat(mut a: V, b: V) -> V {
@@ -375,6 +375,31 @@ pub fn build(nd: &Node, scripts: &[Vec<V>], hm: u8, log: &Log) -> Result<Any, St
                     return Err("iter flavour cannot pend".into());
                 }
                 Ok(Any::F(bxf(pull::iter(SIter(Script::new(n, s, hm, log))))))
+            }
+            "once" => {
+                if s.len() != 1 || !is_item(&s[0]) {
+                    return Err("once flavour needs a one-item script".into());
+                }
+                Ok(Any::F(bxf(pull::once(s[0].clone()))))
+            }
+            "empty" => {
+                if !s.is_empty() {
+                    return Err("empty flavour needs an empty script".into());
+                }
+                Ok(Any::F(bxf(pull::empty::<V>())))
+            }
+            "from_fn" => {
+                if s.iter().any(|e| e[0] == -1) {
+                    return Err("from_fn flavour cannot pend".into());
+                }
+                let mut sc = Script::new(n, s, hm, log);
+                Ok(Any::N(bx(pull::from_fn(move || -> PullStep<V, (), dfir_pipes::No, Yes> {
+                    let a = sc.step();
+                    match a[0] {
+                        -2 => PullStep::Ended(Yes),
+                        _ => PullStep::Ready(a, ()),
+                    }
+                }))))
             }
             "poll_fn" => {
                 let mut sc = Script::new(n, s, hm, log);
@@ -465,7 +490,7 @@ pub fn build(nd: &Node, scripts: &[Vec<V>], hm: u8, log: &Log) -> Result<Any, St
 /// FusedN of PullPipe.tla, mirrored; `build` must agree (checked by the driver).
 pub fn fused_of(nd: &Node, scripts: &[Vec<V>]) -> bool {
     match nd.k.as_str() {
-        "src" => nd.f != "poll_fn" && !scripts[(nd.n - 1) as usize].iter().any(|e| e[0] == -2),
+        "src" => nd.f != "poll_fn" && nd.f != "from_fn" && !scripts[(nd.n - 1) as usize].iter().any(|e| e[0] == -2),
         "map" | "filter" | "filter_map" | "filter_map_async" | "inspect" | "enumerate" | "skip" | "skip_while"
         | "flat_map" | "flatten" | "flat_map_stream" | "flatten_stream" => fused_of(&nd.c[0], scripts),
         "take" | "fuse" | "zip_longest" => true,
@@ -549,6 +574,32 @@ pub fn build_root(nd: &Node, scripts: &[Vec<V>], hm: u8, log: &Log) -> Result<Ro
                 g.borrow_mut().push(v);
             }
         }),
+        kind @ ("fold" | "fold_from" | "reduce") => {
+            // accumulate_all over (key, value) = (x % 2, x); see AccOut in PullPipe.tla
+            let kind = kind.to_string();
+            Box::pin(async move {
+                let step = |a: &mut i64, x: i64| *a = (*a * 3 + x) % 10007;
+                let mut map: std::collections::HashMap<i64, i64> = std::collections::HashMap::new();
+                let kv = c.map(|v: V| (v[0] % 2, v[0]));
+                match kind.as_str() {
+                    "fold" => {
+                        let mut acc = pull::Fold::new(|| 7i64, step);
+                        pull::accumulate_all(&mut acc, &mut map, kv).await
+                    }
+                    "fold_from" => {
+                        let mut acc = pull::FoldFrom::new(|x: i64| x + 1000, step);
+                        pull::accumulate_all(&mut acc, &mut map, kv).await
+                    }
+                    _ => {
+                        let mut acc = pull::Reduce::new(step);
+                        pull::accumulate_all(&mut acc, &mut map, kv).await
+                    }
+                }
+                let mut out: Vec<V> = map.into_iter().map(|(k, a)| vec![k, a]).collect();
+                out.sort();
+                g.borrow_mut().extend(out);
+            })
+        }
         _ => unreachable!(),
     };
     Ok(Root::Fut(fut, got))
